@@ -30,16 +30,18 @@ type c13OutMsg struct {
 }
 
 type c13OutScen struct {
-	M    int         `json:"max_packet_size"`
-	A    int         `json:"topic_alias_max"`
-	SQ   byte        `json:"sub_qos"`
-	Msgs []c13OutMsg `json:"msgs"`
+	M     int         `json:"max_packet_size"`
+	A     int         `json:"topic_alias_max"`
+	SQ    byte        `json:"sub_qos"`
+	Msgs  []c13OutMsg `json:"msgs"`
+	Redis bool        `json:"redis,omitempty"` // session queues on the redis backend (its Read enforces the limit too)
 }
 
 var c13Topics = []string{"o/a", "o/bb", "o/ccc", "o/d"}
 
 func genC13Out(t *rapid.T) c13OutScen {
 	s := c13OutScen{M: rapid.IntRange(40, 300).Draw(t, "M"), A: rapid.SampledFrom([]int{0, 1, 2, 5}).Draw(t, "A"), SQ: byte(rapid.IntRange(0, 1).Draw(t, "sq"))}
+	s.Redis = rapid.IntRange(0, 3).Draw(t, "backend") == 0
 	n := rapid.IntRange(2, 14).Draw(t, "n")
 	for i := 0; i < n; i++ {
 		d := rapid.IntRange(-3, 5).Draw(t, "delta")
@@ -63,6 +65,11 @@ func publishSize(topic string, qos byte, payloadLen int) int {
 
 func runC13Out(s c13OutScen, c *ev.Case) *ev.Violation {
 	cfg := fixture.BaseConfig()
+	cfg, cleanupBackend, bv := withBackend(cfg, s.Redis, c)
+	if bv != nil {
+		return bv
+	}
+	defer cleanupBackend()
 	var mu sync.Mutex
 	dropped := map[string]error{}
 	hooks := &server.Hooks{OnMsgDropped: func(ctx context.Context, clientID string, msg *gmqtt.Message, err error) {
